@@ -112,7 +112,7 @@ class Effects:
         self._sum = {}
 
     # ---- events ------------------------------------------------------------
-    def node_writes(self, n, env, self_path=("this",)):
+    def node_writes(self, n, env, follow=True):
         """Access paths written by evaluating node n itself (not its sub-expressions).
         Returns list of (path, how)."""
         k = n.get("k")
@@ -127,6 +127,12 @@ class Effects:
             c = callee(n)
             nm, ns, op = c.get("name"), c.get("ns"), c.get("op")
             fid = c.get("fid")
+            if fid is not None and fid in self.F.by_fid:
+                fol = follow(n) if callable(follow) else follow
+                if not fol:
+                    fid = None  # the client walks into this callee itself
+                    if not ("obj" in n and c.get("op")):
+                        return out
             if "obj" in n:
                 obj_roots = roots(n["obj"], env)
                 if op in ASSIGN_OPS and op != ",":
@@ -236,6 +242,10 @@ class Effects:
             self._collect(ini.get("init"), env, out)
         self._collect_stmt(f.get("body"), env, out)
         return out
+
+    def function_writes_local(self, f):
+        """Writes performed by f's own statements (not through repo callees)."""
+        return [(p, h, n) for p, h, n in self.function_writes(f) if not h.startswith("via ")]
 
     def _bind_decl(self, d, env):
         if d.get("bind") == "alias" and d.get("init") is not None:
